@@ -792,6 +792,23 @@ def o_C11(I):
     return out
 
 
+def publish_len(op):
+    """length of the PUBLISH packet a publish request encodes to (MQTT 5 section 3.3), from the request alone"""
+    f = op.f
+    pl = 0
+    for k, n in [('pfi', 2), ('ta', 3), ('mei', 5)]:
+        if k in f:
+            pl += n
+    for k in ('cd', 'rt', 'ct'):
+        if k in f:
+            pl += 3 + len(unhex(f[k][-1]))
+    for u in f.get('up', []):
+        k, v = u.split(':')
+        pl += 5 + len(unhex(k)) + len(unhex(v))
+    rem = 2 + len(unhex(f.get('t', [''])[-1])) + (2 if op.qos else 0) + len(m.varint(pl)) + pl + len(unhex(f.get('p', [''])[-1]))
+    return 1 + len(m.varint(rem)) + rem
+
+
 def o_C12(I, ref_len):
     """ref_len: op id -> length of the packet that operation writes when no limit applies (from the reference script)"""
     out = []
@@ -803,6 +820,8 @@ def o_C12(I, ref_len):
         if op.done is None and not op.w:
             continue
         L = ref_len.get(op.id)
+        if L is None and op.kind == 'PUBLISH' and 't' in op.f:
+            L = publish_len(op)
         if L is None:
             continue
         too_big = M is not None and L > M
@@ -944,58 +963,68 @@ def o_C15(I):
 
 
 def o_C17(I):
+    """every resumed run() (a RUN after a MARKDISC) first re-sends exactly the unfinished handshakes, or nothing when expired"""
     out = []
-    marks = [n for n, e in enumerate(I.events) if e['kind'] == 'markdisc']
-    if not marks:
+    if not any(e['kind'] == 'markdisc' for e in I.events):
         return out
-    n0 = marks[0]
-    ago = int(I.events[n0]['toks'][0])
-    # session expiry interval in force: CONNECT's value, overridden by CONNACK's
     sei = 0
-    for e in I.events[:n0]:
-        if e['kind'] == 'call' and e['call'] == 'connect':
+    ago = None
+    unfinished = []      # (key, raw as it must be re-sent) in original order
+    resume_seg = None
+    resent = []
+    want = None
+    expired = False
+
+    def close_resume():
+        nonlocal resume_seg, resent, want
+        if resume_seg is not None and want is not None and resent != want:
+            out.append((I.name, resume_seg, f'resumed session re-sent {[x.hex() for x in resent]}, expected {[x.hex() for x in want]} (expired={expired})'))
+        resume_seg, resent, want = None, [], None
+
+    for e in I.events:
+        if resume_seg is not None and e['seg'] != resume_seg:
+            close_resume()
+        k = e['kind']
+        if k == 'call' and e['call'] == 'connect':
             sei = int(e['f'].get('sei', ['0'])[-1])
-        if e['kind'] == 'in' and e['pkt'] and e['pkt']['type'] == 2:
+        if k == 'in' and e['pkt'] and e['pkt']['type'] == 2:
             v = pget(e['pkt']['props'], 17)
             if v is not None:
                 sei = v
-    # the second CONNECT may change it again before run() looks at it
-    for e in I.events[n0:]:
-        if e['kind'] == 'call' and e['call'] == 'connect':
-            sei = int(e['f'].get('sei', ['0'])[-1])
-        if e['kind'] == 'in' and e['pkt'] and e['pkt']['type'] == 2:
-            v = pget(e['pkt']['props'], 17)
-            if v is not None:
-                sei = v
-        if e['kind'] == 'call' and e['call'] == 'run':
-            break
-    if sei not in (0, 4294967295) and abs(sei - ago) <= 1:
-        return out       # on the one-second boundary: not judged
-    expired = sei == 0 or (sei != 4294967295 and sei < ago)
-    unfinished = []      # (key, raw with DUP) in original order
-    for e in I.events[:n0]:
-        if e['kind'] == 'w' and e['pkt']:
+        if k == 'markdisc':
+            ago = int(e['toks'][0])
+        if k == 'call' and e['call'] == 'run' and ago is not None:
+            if sei not in (0, 4294967295) and abs(sei - ago) <= 1:
+                ago = None           # on the one-second boundary: not judged
+                unfinished = None
+                continue
+            expired = sei == 0 or (sei != 4294967295 and sei < ago)
+            if unfinished is None:
+                ago = None
+                continue
+            if expired:
+                unfinished = []
+            resume_seg, resent, want = e['seg'], [], [raw for key, raw in unfinished]
+            ago = None
+            continue
+        if unfinished is None:
+            continue
+        if k == 'w' and e['pkt']:
             p = e['pkt']
-            if p['type'] == 3 and p['qos'] > 0:
+            if resume_seg is not None and e['seg'] == resume_seg:
+                resent.append(e['raw'])
+                continue
+            if p['type'] == 3 and p['qos'] > 0 and not p['dup']:
                 unfinished.append((('pub', p['pid']), bytes([e['raw'][0] | 8]) + e['raw'][1:]))
             if p['type'] == 6:
                 unfinished.append((('rel', p['pid']), e['raw']))
-        if e['kind'] == 'in' and e['pkt'] and e['ctx'] == 'run':
+        if k == 'in' and e['pkt'] and e['ctx'] == 'run':
             p = e['pkt']
             if p['type'] in (4, 5):
                 unfinished = [x for x in unfinished if x[0] != ('pub', p['pid'])]
             if p['type'] == 7:
                 unfinished = [x for x in unfinished if x[0] != ('rel', p['pid'])]
-    runs = [n for n, e in enumerate(I.events) if n > n0 and e['kind'] == 'call' and e['call'] == 'run']
-    if not runs:
-        return out
-    seg = I.events[runs[0]]['seg']
-    resent = [e['raw'] for e in I.events if e['kind'] == 'w' and e['seg'] == seg]
-    want = [] if expired else [raw for k, raw in unfinished]
-    if resent != want:
-        out.append((I.name, seg, f'resumed session re-sent {[x.hex() for x in resent]}, expected {[x.hex() for x in want]} (expired={expired})'))
+    close_resume()
     if expired:
-        for op in I.ops.values():
-            if op.seg < seg and op.polled and op.dropped is None and op.done is None and op.w:
-                out.append((I.name, seg, f'op{op.id} abandoned by the expired session still pending at the end'))
+        pass
     return out + completion_check(I)
